@@ -11,7 +11,7 @@
 -/
 import IbicusModel.Lemmas.Grid
 import IbicusModel.Lemmas.GridState
-import IbicusModel.Lemmas.GenGridDispatch
+import IbicusModel.Lemmas.GenGridLoops
 import IbicusModel.Model.GridRefresh
 
 namespace Props.C05
@@ -327,42 +327,83 @@ theorem deltachange_kwargs_forwarded {κ : Type} (loc : LocFnKw κ α ε) (kw : 
     slice out i j = v.map (fun x => some (.val x)) :=
   deltachange_cellwise (loc kw) fs obs hist fut nx ny m hm out h i j hi hj v hv hl
 
-/-! ### dispatch: the four call sites of the source (tier A: `Lemmas.GenGridDispatch`) -/
+/-! ### dispatch and the map functions, read from the source (tier A, semantic: `Gen/GridLoops.lean`, `Lemmas.GenGridLoops`)
 
-open Model.GridDispatch in
-/-- the table has exactly the four paths class × branch -/
+  Stated on the values `Gen.GridLoops.*` that `translator/extract_gridloops.py` regenerates from /repo's current AST on every
+  run (names of locals and parameters resolved to roles — a rename changes nothing; a changed slice, enumeration, write
+  target, caught class, dropped argument … changes the value or is rejected by the extractor). -/
+
+open Model.GridLoops in
+/-- the two classes that define `apply`, each with exactly two call sites: the `if parallel:` branch calls
+    `parallel_map_over_locations`, the `else` branch `map_over_locations` (four call sites: class × branch) -/
 theorem dispatch_complete :
-    paths.map (fun p => (p.cls, p.parallel)) =
-      [("Debiaser", true), ("Debiaser", false), ("DeltaChange", true), ("DeltaChange", false)] := by decide
+    [Gen.GridLoops.applyDebiaser, Gen.GridLoops.applyDeltaChange].map
+        (fun a => (a.cls, a.parallelBranch.callee, a.serialBranch.callee)) =
+      [("Debiaser", MapFn.parallel, MapFn.serial), ("DeltaChange", MapFn.parallel, MapFn.serial)] := by decide
 
-open Model.GridDispatch in
-/-- **Every call site computes what the property demands of it**: the output is sized by `cm_future` (by `obs` for
-    DeltaChange) in the serial *and* in the parallel branch, the mode matches the branch, the failsafe flag and the
-    keyword arguments are forwarded — for all data, flags, keyword arguments (`kw` whatever `noKw` is) and schedules. -/
-theorem dispatch_correct {κ : Type} (p : Path) (hp : p ∈ paths) (loc : LocFnKw κ α ε) (kw noKw : κ) (fs : Bool)
-    (obs hist fut : Arr3 α) (nx ny : Nat) (sched : List Nat) :
-    interp p loc kw noKw fs obs hist fut nx ny sched = some (spec p.cls p.parallel loc kw fs obs hist fut nx ny sched) := by
-  simp only [paths, List.mem_cons, List.not_mem_nil, or_false] at hp
-  rcases hp with rfl | rfl | rfl | rfl <;> rfl
+open Model.GridLoops Model.GridDispatch in
+/-- **Every call site computes what the property demands of it.**  What the regenerated `apply` of either class denotes —
+    its dispatch onto the regenerated map functions, which call the regenerated catch wrapper — is `spec`: the output is
+    sized by `cm_future` (by `obs` for DeltaChange) in the serial *and* in the parallel branch (`E.parallel` is arbitrary),
+    the mode matches the branch, `apply`'s own arrays reach the map function's array parameters, the failsafe flag and the
+    keyword arguments are forwarded (`E.kw` whatever `E.noKw` is) — for all data, flags, keyword arguments, subclass
+    relations `E.isa` and completion schedules, on inputs of common spatial shape (what the input check establishes). -/
+theorem dispatch_correct {κ : Type} (a : ApplySpec) (ha : a ∈ [Gen.GridLoops.applyDebiaser, Gen.GridLoops.applyDeltaChange])
+    (E : ApplyEnv κ α ε) (nx ny : Nat) (hs : ∀ s, E.spatial s = (nx, ny)) :
+    denoteApply a Gen.GridLoops.serialSpec Gen.GridLoops.parallelSpec Gen.GridLoops.catchSpec E
+      = spec a.cls E.parallel E.loc E.kw E.failsafe (E.arr .obs) (E.arr .hist) (E.arr .fut) nx ny E.sched := by
+  simp only [List.mem_cons, List.not_mem_nil, or_false] at ha
+  rcases ha with rfl | rfl
+  · exact (Lemmas.GenGridLoops.gen_apply_eq_spec E nx ny hs).1
+  · exact (Lemmas.GenGridLoops.gen_apply_eq_spec E nx ny hs).2
 
-open Model.GridDispatch in
-/-- the statements the model of the map functions was written from (regenerated from the source on every run):
-    `starmap` gets no extra keyword (no explicit chunk size), the failsafe value is the scalar `np.nan`, only `Exception`
-    is caught and re-raised unchanged otherwise, the serial loop runs over `np.ndindex`, the write-back over the very index
-    list the arguments were built from -/
+/-- the guard of `dispatch_correct` is satisfiable: a 1×2 grid with time lengths 1 / 1 / 2, parallel, schedule `[1, 0]` -/
+example : ∀ s, (Lemmas.GenGridLoops.Witness.E 7 false true).spatial s = (1, 2) := fun _ => rfl
+
+open Model.GridLoops in
+/-- **what the two map functions do, read from the source**: for every location function, keyword arguments, flag, arrays
+    with `obs.shape[1:] = (nx, ny)` and `output_size = (T, nx, ny)`, `map_over_locations` is `applySerial` and
+    `parallel_map_over_locations` is `applyParallel` (every completion schedule) of the per-cell function
+    `func(obs[:, i, j], cm_hist[:, i, j], cm_future[:, i, j], **kwargs)` run through the catch wrapper — the functions the
+    theorems above are stated on -/
+theorem map_functions_denote {κ : Type} (env : MapEnv κ α ε) (fs : Bool) (T nx ny : Nat) (sched : List Nat)
+    (hobs : env.spatial .obs = (nx, ny)) (hout : env.outputSize = (T, nx, ny)) :
+    denoteSerial Gen.GridLoops.serialSpec Gen.GridLoops.catchSpec { env with failsafe := some fs }
+        = applySerial (cellFn (env.loc env.kw) (env.arr .obs) (env.arr .hist) (env.arr .fut)) fs T nx ny ∧
+    denoteParallel Gen.GridLoops.parallelSpec Gen.GridLoops.catchSpec { env with failsafe := some fs } sched
+        = applyParallel (cellFn (env.loc env.kw) (env.arr .obs) (env.arr .hist) (env.arr .fut)) fs T nx ny sched := by
+  rw [Lemmas.GenGridLoops.serialSpec, Lemmas.GenGridLoops.parallelSpec, Lemmas.GenGridLoops.catchSpec]
+  exact ⟨Lemmas.GenGridLoops.denote_serial env fs T nx ny hobs hout,
+    Lemmas.GenGridLoops.denote_parallel env fs T nx ny sched hobs hout⟩
+
+example : (Lemmas.GenGridLoops.Witness.env 7 false (2, 1, 2)).spatial .obs = (1, 2) ∧
+    (Lemmas.GenGridLoops.Witness.env 7 false (2, 1, 2)).outputSize = (2, 1, 2) := ⟨rfl, rfl⟩
+
+open Model.GridLoops in
+/-- the structure the model of the map functions was written from (regenerated from the source on every run): the pool
+    method is `starmap` and gets no chunk size; the argument tuples are the three columns of the current cell in the order
+    obs, cm_hist, cm_future, with the flag and `**kwargs` bound in the `partial`; the argument list runs over
+    `[(i, j) for i in range(obs.shape[1]) for j in range(obs.shape[2])]` and the write-back over that very enumeration,
+    writing the result at the same position into column `(cell[0], cell[1])`; the serial loop runs over
+    `np.ndindex(obs.shape[1:])`, makes the same wrapper call and writes column `(cell[0], cell[1])`; both allocate
+    `np.empty(output_size, dtype=cm_future.dtype)`; the wrapper calls `func(a0, a1, a2, **kwargs)`, catches `Exception`
+    only, returns the scalar `np.nan` in failsafe mode and re-raises unchanged otherwise -/
 theorem map_function_statements :
-    fact "parallel.map_keywords" = some "" ∧
-    fact "parallel.map_function" = some "pool.starmap" ∧
-    fact "parallel.map_arg1" = some "[(obs[:, i, j], cm_hist[:, i, j], cm_future[:, i, j]) for i, j in indices]" ∧
-    fact "parallel.indices" = some "[(i, j) for i in range(obs.shape[1]) for j in range(obs.shape[2])]" ∧
-    fact "parallel.writeback_loop" = some "for (k, index) in enumerate(indices)" ∧
-    fact "parallel.writeback" = some "output[:, index[0], index[1]] = result[k]" ∧
-    fact "serial.indices" = some "np.ndindex(obs.shape[1:])" ∧
-    fact "serial.assign_target" = some "output[:, i, j]" ∧
-    fact "catch.try" = some "return func(obs, cm_hist, cm_future, **kwargs)" ∧
-    fact "catch.except" = some "Exception" ∧
-    fact "catch.failsafe_exits" = some "return np.nan" ∧
-    fact "catch.else" = some "raise" := by decide +kernel
+    Gen.GridLoops.parallelSpec.pool = ⟨.param "nr_processes", "starmap", none⟩ ∧
+    Gen.GridLoops.parallelSpec.call = cellCall ∧
+    Gen.GridLoops.parallelSpec.argsOver = .comprehension ⟨.ofArr .obs, .x⟩ ⟨.ofArr .obs, .y⟩ .c0 .c1 ∧
+    Gen.GridLoops.parallelSpec.writeOver = Gen.GridLoops.parallelSpec.argsOver ∧
+    Gen.GridLoops.parallelSpec.target = (.c0, .c1) ∧
+    Gen.GridLoops.parallelSpec.alloc = ⟨"np.empty", .outputSize, .fut⟩ ∧
+    Gen.GridLoops.serialSpec.cells = .ndindexTail (.ofArr .obs) ∧
+    Gen.GridLoops.serialSpec.call = cellCall ∧
+    Gen.GridLoops.serialSpec.target = (.c0, .c1) ∧
+    Gen.GridLoops.serialSpec.alloc = ⟨"np.empty", .outputSize, .fut⟩ ∧
+    Gen.GridLoops.catchSpec.tryArgs = (.a0, .a1, .a2) ∧
+    Gen.GridLoops.catchSpec.tryStarKw = true ∧
+    Gen.GridLoops.catchSpec.excClass = .exception ∧
+    Gen.GridLoops.catchSpec.onTrue = .returnNan ∧
+    Gen.GridLoops.catchSpec.onFalse = .reraise := by decide
 
 /-! ### the pool's chunking -/
 
